@@ -212,6 +212,29 @@ def gen_template(rng):
     return src, (loops, e_model, e_event, e_change)
 
 
+def directed_templates():
+    """conditionals nested as the HEAD of member chains at several levels, every combination of conditions (both branches of each level are
+    taken under DATA[0] / DATA[1]), with static and dynamic trailing members at each level"""
+    d = lambda n: ("data", n)
+    sm = lambda o, k: ("smember", o, k)
+    dm = lambda o, k: ("dmember", o, k)
+    out = []
+    conds = [d("c"), d("z"), d("e")]
+    inner_tails = [lambda x: sm(x, "p"), lambda x: dm(x, d("i")), lambda x: sm(sm(x, "b"), "p"), lambda x: x]
+    outer_tails = [lambda x: sm(x, "q"), lambda x: dm(x, d("i")), lambda x: dm(sm(x, "v"), ("str", "p", '"')), lambda x: x]
+    for c1 in conds:
+        for c2 in conds:
+            for it in inner_tails:
+                for ot in outer_tails:
+                    inner = it(("cond", c2, d("a"), d("o")))
+                    for e in (ot(("cond", c1, inner, sm(d("o"), "p"))), ot(("cond", c1, sm(d("a"), "p"), inner)),
+                              ot(sm(("cond", c1, it(("cond", c2, it(("cond", c1, d("o"), d("a"))), d("a"))), d("o")), "p"))):
+                        q = eg.src(tg.requote(e, "'"), "min")
+                        src = '<wxs module="m">%s</wxs><wxs module="w" src="./x.wxs"/><input model:value="{{ %s }}" bind:tap="{{ m.f }}" change:prop="{{ m.f }}"/>' % (WXS_INLINE, q)
+                        out.append((src, ([], e, sm(d("m"), "f"), sm(d("m"), "f"))))
+    return out
+
+
 def list_items(v):
     """[(item, index)] as the runtime enumerates a wx:for list"""
     if isinstance(v, list):
@@ -313,7 +336,7 @@ def run(chk):
     core.diff_streams(chk, "lvalue", dreqs, dreal, core.run_driver(dreqs))
     # ---- (2) oracle ---------------------------------------------------------------------------------
     n = 500 if quick else 10000
-    tpls = [gen_template(rng.fork(("t", i))) for i in range(n)]
+    tpls = [gen_template(rng.fork(("t", i))) for i in range(n)] + directed_templates()
     answers = core.run_harness([core.req("group", json.dumps({"files": [["p", src]], "scripts": [["x", WXS_FILE]]})) for src, _ in tpls])
     rreqs, meta = [], []
     for i, ((src, st), a) in enumerate(zip(tpls, answers)):
